@@ -23,6 +23,7 @@ func init() {
 			{ID: "C19.R5", Floor: 1, Doc: "UUIDFromTime's clock value is the result of one atomic add on clockSeq on every path", Run: c19r5},
 			{ID: "C19.R6", Floor: 1, Doc: "getTimestamp counts 100 ns ticks from seconds and nanoseconds separately (no UnixNano, which wraps outside 1678..2262)", Run: c19r6},
 			{ID: "C19.R7", Floor: 4, Doc: "MinTimeUUID / MaxTimeUUID use the extreme clock and node bytes under Cassandra's signed byte order", Run: c19r7},
+			{ID: "C19.R8", Floor: 1, Doc: "UUID.Time splits the tick count into seconds and the sub-second part before building the time (no nanosecond count in an int64, which only spans 1678..2262)", Run: c19r8},
 		},
 	})
 }
@@ -909,5 +910,33 @@ func c19r7(p *Program, r *Report) {
 		}
 		r.Check(okNode, call, w.fn+" node bytes are the extreme ones under signed byte order", why,
 			fmt.Sprintf("the node handed to TimeUUIDWith (%s) is not six bytes of %#x: version-1 UUIDs of the same instant sort outside the bound", why, w.nod))
+	}
+}
+
+// c19r8: the reverse of getTimestamp. time.Unix(sec, nsec) must be given the ticks divided by 10^7 (plus the 1582
+// base) as seconds and (ticks mod 10^7)*100 as nanoseconds. A single nanosecond count (ticks*100) does not fit an
+// int64 for instants outside 1678..2262.
+func c19r8(p *Program, r *Report) {
+	fi := r.NeedFunc("(UUID).Time")
+	if fi == nil {
+		return
+	}
+	info := fi.Pkg.TypesInfo
+	n := 0
+	for _, c := range callsIn(fi.Decl.Body) {
+		if calleeName(info, c) != "time.Unix" || len(c.Args) != 2 {
+			continue
+		}
+		n++
+		sec := strings.ReplaceAll(exprStr(p.expandLocalsAny(fi, c.Args[0], 0)), " ", "")
+		nsec := strings.ReplaceAll(exprStr(p.expandLocalsAny(fi, c.Args[1], 0)), " ", "")
+		hasDiv := func(s string) bool { return strings.Contains(s, "/1e7") || strings.Contains(s, "/10000000") }
+		hasRem := func(s string) bool { return strings.Contains(s, "%1e7") || strings.Contains(s, "%10000000") }
+		okSplit := hasDiv(sec) && hasRem(nsec) && strings.Contains(sec, "timeBase")
+		r.Check(okSplit, c, "(UUID).Time builds the time from seconds and a sub-second remainder", "time.Unix(t/1e7 + timeBase, (t%1e7)*100)",
+			"the time is built as time.Unix("+sec+", "+nsec+"): without the split into seconds (ticks / 10^7) and remainder (ticks mod 10^7) the nanosecond value overflows int64 for instants before 1678 or after 2262, so such time-UUIDs return a wrong time")
+	}
+	if n == 0 {
+		r.Unresolved("(UUID).Time does not call time.Unix")
 	}
 }
